@@ -397,10 +397,10 @@ def replay_model(drv, recs):
 
 
 # ------------------------------------------------------------------------------------------------
-# finding F20: a kill between two row commits of a task + an edit made after the kill
+# finding F50: a kill between two row commits of a task + an edit made after the kill
 # ------------------------------------------------------------------------------------------------
 
-F20_MODULE = '''from pathlib import Path
+F50_MODULE = '''from pathlib import Path
 D = Path(__file__).resolve().parent
 
 
@@ -409,14 +409,14 @@ def task_cmp(a=D / "a.txt", b=D / "b.txt", produces=D / "same.txt"):
 '''
 
 
-def f20_witness(server) -> dict:
+def f50_witness(server) -> dict:
     """a=b=1, build; a=b=2 (product stays "equal"), rebuild killed right after the FIRST state-row commit; b put back to 1;
     build. Reproduced = that build reports the task SKIP_UNCHANGED / SUCCESS with same.txt == "equal" although a != b."""
-    root = common.scratch_dir("c05f20")
+    root = common.scratch_dir("c05f50")
     clock = project.Clock()
     pts = root / ".verif_points"
     try:
-        project.write_file(root / "task_cmp.py", F20_MODULE, clock)
+        project.write_file(root / "task_cmp.py", F50_MODULE, clock)
         project.write_file(root / "a.txt", "1", clock)
         project.write_file(root / "b.txt", "1", clock)
         o1 = server.build(root, {}, env={})
